@@ -37,6 +37,7 @@ from common import enc, dec, err_kind
 from props.c04 import val, tag, exact, Unparsed, _var, _is_const, _flat_sum, _mem_obj, _memory
 from props.c04 import _fold as _fold_c04
 from props import c06hub as hub
+from props import c06_tr as tr
 
 
 def _fold(node):
@@ -94,9 +95,24 @@ TRUSTED = [
     "output for loops over such hubs; for NESTED hubs (hub over a product over hub copies: products of products, the "
     "Stream-gain path on Stream coefficients) that the source is pulled once per sample is measured by the entry hub "
     "on the real objects (pull counts read off itertools.repeat / count / list_iterator themselves), not proved",
-    "hand-written builders mulHub / divHub / gainHub / PE.build / callH (which tee copy meets which, order of the "
-    "next calls in one evaluation, what a failed evaluation leaves pulled): modelled from lazy_poly.py / "
-    "lazy_filters.py, tied by outputs, per-output pull traces and final pull counts of the entry hub",
+    "builders mulHub / divHub / gainHub: hand-written, AND regenerated from the source on every run by the translator "
+    "harness/props/c06_tr.py (ast -> lean/ALV/Gen/C06Src.lean; theorems src_mulHub_is_model, src_divHub_is_model, "
+    "src_divTermHub_is_model, src_gainHub_is_model).  The translator trusts: (1) the Python subset semantics it assumes "
+    "— statements run in order, a list comprehension / generator expression over iteritems(d) visits the items in "
+    "dictionary order, nested `for` loops, `k in d` / `d[k] op= v` / `d[k] = v` on an OrderedDict, operands evaluated "
+    "left to right, `x *= y` on a Poly is `x = x * y` (Poly has no __imul__), OrderedDict(pairs) keeps the pairs when "
+    "the keys are distinct (only `k` / `k ± name` keys are admitted); (2) the vocabulary mapping of "
+    "lean/ALV/Model/C06HubSrc.lean — thub(v, n) = the number itself or a tee group of n copies, every evaluation of an "
+    "operator on a hub takes the next copy and IndexError when none is left, Stream op Stream / number = HC.op, "
+    "Poly(d, zero=...) drops zero terms, Poly(x) of a coefficient, p[k] = 0 deletes / p[k] = 1 replaces in place or "
+    "appends, p[k] of a missing power is zero, s.copy() = tee group of two whose copy 0 replaces s; (3) the leading "
+    "`if not isinstance(other, Poly): other = Poly(other)` coercion and the isinstance dispatch of __truediv__ are "
+    "matched literally, not modelled (the Lean definitions take the operands already as polynomials / coefficient).  "
+    "Self-tested on every run (extra check translator-selftest: 10 deliberate edits seen, 5 harmless rewrites give the "
+    "same text, the committed file is reproduced byte for byte)",
+    "hand-written PE.build / callH / loopH (order of the next calls in one evaluation, what a failed evaluation leaves "
+    "pulled) and the dispatch between the three builders: modelled from lazy_poly.py / lazy_filters.py, tied by "
+    "outputs, per-output pull traces and final pull counts of the entry hub",
 ]
 ASSUMPTIONS = [
     "a generator whose coefficient iterator meets StopIteration ENDS (D13 repaired in /repo: try / except "
@@ -127,9 +143,13 @@ MANIFEST = {
                  "difference equation with the n-th coefficient values over unbounded histories = the indexed "
                  "sentence of the property; variable-gain rewriting; ZFilter / Poly arithmetic and whole expression "
                  "trees read at time n = arithmetic of fractions of Laurent polynomials on the n-th items) + "
-                 "translator tie T3 + exact I/O and pull-count differential over call shapes, memory kinds, "
+                 "translator tie T3 + translator c06_tr (Poly.__mul__, Poly.__truediv__ and the Stream-gain block of "
+                 "LinearFilter.__call__ are re-read with ast on every run and written as Lean definitions "
+                 "ALV.Gen.C06.mulHub / divHub / divTermHub / gainHub, proved equal to the hand-written hub model: "
+                 "src_*_is_model) + exact I/O and pull-count differential over call shapes, memory kinds, "
                  "coefficient iterable kinds, raising sources and two-call histories",
-    "note": "67 theorems; callTwice_eq_specCallTwice is proved for every two-call history (incl. those whose first "
+    "note": "71 theorems; the hub builders are regenerated from the source (lean/ALV/Gen/C06Src.lean, counted hubs: "
+            "no hub runs out of copies).  callTwice_eq_specCallTwice is proved for every two-call history (incl. those whose first "
             "output was ended by a coefficient stream).  PENDING: hub_nested_reads_once_PENDING (reads-once for NESTED "
             "hubs on the whole call; proved for hubs directly over their source, the max-over-copies invariant for any "
             "nesting; the statement is evaluated on every generated input of the entry hub).  The tee / thub bookkeeping is an operational "
@@ -1661,7 +1681,18 @@ _SELFTEST_WRAPPED = """def gen(seq, memory, zero, b1):
     d1 = d0"""
 
 
+def regenerate(eng=None):
+    """translator of the hub programs (harness/props/c06_tr.py): lean/ALV/Gen/C06Src.lean from the source of the repo"""
+    return tr.regenerate(eng)
+
+
 def extra_checks(eng):
+    eng.extra["translated"] = {
+        "under_the_translator": tr.TRANSLATED,
+        "anchored_but_not_translated": [{"function": f, "reason": r} for f, r in tr.NOT_TRANSLATED],
+    }
+    for item in tr.selftest():
+        yield item
     got = parse_source(_SELFTEST_SRC)
     yield ("T3-parser-reference-source", got == _SELFTEST_IR, "parse_source gave %r" % (got,))
     blind = []
